@@ -110,4 +110,40 @@ def AdmissibleRun (maxU maxO : Nat) : CState → List COp → Prop
 /-- The frame a connection task writes for a broadcast `am_choked_map` (`handle_manager_cmd`). -/
 def frameFor (m : List (Nat × Bool)) (a : Nat) : Option Bool := (m.find? (·.1 = a)).map (·.2)
 
+/-! ### The rotation timer (`Session::timeout_change_conn_state`) -/
+
+/-- What `SyncStats` has recorded per peer: `(download_rate, uploaded_rate)`; `none` = not reported yet. -/
+abbrev Rates := Nat → Option Nat × Option Nat
+
+/-- "If not all peers reported their state, do nothing". -/
+def tickReady (s : CState) (r : Rates) : Bool := s.all fun p => (r p.addr).1.isSome && (r p.addr).2.isSome
+
+def tickRound (rounds round : Nat) : Nat := (round + 1) % rounds
+
+/-- The peers `new_optimistic_peers` draws from: choked by us and interested. -/
+def optCandidates (s : CState) : List Nat := (s.filter fun p => p.amChoked && p.interested).map (·.addr)
+
+/-- The rate the peers are ordered by: what they gave us while we still download, what they took once we seed. -/
+def tickRate (seeder : Bool) (r : Rates) (a : Nat) : Nat := (if seeder then (r a).1 else (r a).2).getD 0
+
+/-- `timeout_change_conn_state`. `sorted` is the peer list in the order of the sorted rate vector and `pick` the
+    result of `new_optimistic_peers` (the two places where the hash map's order and the random generator enter).
+    Returns the new round counter and, if the rotation is carried out, the new state and the broadcast map. -/
+def tick (maxU rounds : Nat) (s : CState) (round : Nat) (r : Rates) (sorted : List CPeer) (pick : List Nat) :
+    Nat × Option (CState × List (Nat × Bool)) :=
+  let round' := tickRound rounds round
+  if tickReady s r then (round', some (rotate maxU sorted (if round' = 0 then pick else []))) else (round', none)
+
+/-- The state after a tick. -/
+def tickState (s : CState) (t : Nat × Option (CState × List (Nat × Bool))) : CState :=
+  match t.2 with
+  | some x => x.1
+  | none => s
+
+/-- What `sorted` and `pick` can be: all peers, in descending order of the rate that counts; at most `maxO`
+    candidates, without repetition. -/
+def tickAdmissible (maxO : Nat) (s : CState) (seeder : Bool) (r : Rates) (sorted : List CPeer) (pick : List Nat) : Prop :=
+  sorted.Perm s ∧ sorted.Pairwise (fun x y => tickRate seeder r y.addr ≤ tickRate seeder r x.addr) ∧
+  pick.Nodup ∧ pick.length ≤ maxO ∧ ∀ a ∈ pick, a ∈ optCandidates s
+
 end Rdest.Swarm
